@@ -164,3 +164,66 @@ Theorem C09_min_or_default_first_bug_refuted :
   min_or_default [5; 9] 2147483647 = 5 /\ min_or_default_first_bug [5; 9] 2147483647 = 2147483647.
 Proof. exact min_or_default_first_bug_refuted. Qed.
 Print Assumptions C09_min_or_default_first_bug_refuted.
+
+(* ---- the final-block guard of the POP state machine (Store/FinalGuard.v): assertBlockCanBeUnapplied's
+        `!index.finalized` is a VBK_ASSERT_MSG, i.e. an explicit abort in EVERY build (also with NDEBUG) *)
+From VB Require Import Store.FinalGuard.
+
+(* the walk PopStateMachine::unapply spelled out, with the guard, is the setState of the finalization model *)
+Theorem C09_guarded_walk_is_setState :
+  forall fuel t to, setTip_g true fuel t to = setTip fuel t to.
+Proof. exact setTip_g_true. Qed.
+Print Assumptions C09_guarded_walk_is_setState.
+
+(* the walk stops AT the first finalized block from the tip: that block and everything below it stays applied *)
+Theorem C09_guard_stops_at_first_final :
+  forall t l x,
+  unapply_walk true t l = UAbort x ->
+  is_final t x = true /\ exists above below, l = above ++ x :: below /\ existsb (is_final t) above = false.
+Proof. exact unapply_walk_stops. Qed.
+Print Assumptions C09_guard_stops_at_first_final.
+
+(* a direct setState whose path does not keep a finalized active block is an abort, never a success *)
+Theorem C09_setState_below_final_aborts :
+  forall fuel t to b,
+  In b (t_chain t) -> is_final t b = true ->
+  ~ In b (common_prefix (t_chain t) (path_to fuel t to [])) ->
+  setTip_g true fuel t to = FAbort.
+Proof. exact setTip_g_aborts_on_final. Qed.
+Print Assumptions C09_setState_below_final_aborts.
+
+(* removeSubtree / invalidateSubtree (their state change: setState(pprev) of an active block) keep every finalized
+   block on the active chain whenever they return *)
+Theorem C09_remove_invalidate_keep_final :
+  forall fuel t a t' b,
+  unapplyFrom true fuel t a = FOk t' -> In b (t_chain t) -> is_final t b = true ->
+  In b (t_chain t') /\ t_blocks t' = t_blocks t.
+Proof. exact unapplyFrom_keeps_final. Qed.
+Print Assumptions C09_remove_invalidate_keep_final.
+
+(* C09_final_monotone for histories that also contain direct remove / invalidate calls *)
+Theorem C09_guarded_history_keeps_final :
+  forall fuel ops t t' b,
+  g_never_readds b ops = true ->
+  In b (t_chain t) -> is_final t b = true ->
+  grun true fuel ops t = FOk t' ->
+  (In b (t_chain t') /\ is_final t' b = true) \/ flookup (t_blocks t') b = None.
+Proof. exact guarded_history_keeps_final. Qed.
+Print Assumptions C09_guarded_history_keeps_final.
+
+(* ... and with the check compiled out (VBK_ASSERT_MSG_DEBUG in a Release build) the statement is false: the
+   history of corpus/C09/G1_final_guard_stale_fork.fin (finalize at tip 20, setState onto the stale fork on block 4;
+   removeSubtree of the active final block 7) succeeds and leaves finalized blocks off the active chain, while the
+   code as it is aborts *)
+Theorem C09_final_guard_debug_only_refuted :
+  (exists t', setTip_g false 40 stale_fork_final 106 = FOk t' /\
+              t_chain t' = [0;1;2;3;4;105;106] /\
+              is_final t' 9 = true /\ ~ In 9 (t_chain t') /\ is_final t' 5 = true /\ ~ In 5 (t_chain t')) /\
+  (exists t', unapplyFrom false 40 stale_fork_final 7 = FOk t' /\
+              tip_of t' = 6 /\ is_final t' 7 = true /\ ~ In 7 (t_chain t') /\ is_final t' 9 = true /\ ~ In 9 (t_chain t')) /\
+  (exists t', grun false 40 [GOp (FFinalize 11 10 1000000); GOp (FSetTip 106)] stale_fork_tree = FOk t' /\
+              In 9 (t_chain stale_fork_final) /\ is_final t' 9 = true /\ ~ In 9 (t_chain t') /\
+              flookup (t_blocks t') 9 <> None) /\
+  grun true 40 [GOp (FFinalize 11 10 1000000); GOp (FSetTip 106)] stale_fork_tree = FAbort.
+Proof. exact final_guard_debug_only_refuted. Qed.
+Print Assumptions C09_final_guard_debug_only_refuted.
